@@ -13,6 +13,7 @@
 static int g_nv, g_nc, g_mode = 0;   // 0 all, 1 some, 2 none
 static int violations = 0;
 static bool complete = true;
+static bool saw_vector_error = false;   // some vector reader ended with a non-OK ReadResult()
 struct H : mp::SOLHandler {
   mp::NLHeader Header() const { mp::NLHeader h; h.num_vars = g_nv; h.num_algebraic_cons = g_nc; return h; }
   template <class VR> void consume(VR &rd, int limit, const char *what) {
@@ -21,6 +22,7 @@ struct H : mp::SOLHandler {
     int take = g_mode == 0 ? n : (g_mode == 1 ? n / 2 : 0);
     for (int k = 0; k < take && rd.Size(); ++k) rd.ReadNext();
     if (rd.Size()) complete = false;
+    if (rd.ReadResult() != NLW2_SOLRead_OK) saw_vector_error = true;
   }
   template <class VR> void OnDualSolution(VR &rd) { consume(rd, g_nc, "duals"); }
   template <class VR> void OnPrimalSolution(VR &rd) { consume(rd, g_nv, "primals"); }
@@ -35,5 +37,8 @@ int main(int argc, char **argv) {
   auto r = mp::ReadSOLFile(argv[1], h, u);
   printf("result code %d%s%s\n", (int)r.first, r.second.empty() ? "" : ": ", r.second.c_str());
   if (r.first == NLW2_SOLRead_OK && !complete) { fprintf(stderr, "VIOLATED: a vector was not read completely but the result is OK\n"); violations++; }
+  // recorded inputs named *cut_in_vector*: a binary file for 3 variables / 2 constraints that ends inside a value of a vector
+  if (strstr(argv[1], "cut_in_vector") && g_nv == 3 && g_nc == 2 && g_mode == 0 && !saw_vector_error) {
+    fprintf(stderr, "VIOLATED: the file ends inside a value of a vector, but every vector reader reported its vector as completely read (ReadResult() == OK)\n"); violations++; }
   return violations ? 10 : 0;
 }
